@@ -7,7 +7,9 @@ the switch — `inplace=True`, and compares with the model's prediction (driver 
   * which operand objects may be observed to change (none unless asked to modify them);
   * whether a returned object IS an operand (`res is x`);
   * whether the block dict / sign dict of a returned object IS a dict of an operand
-    (`res.blocks is x.blocks`, `res.phases is x.phases`, also crosswise) — object identity.
+    (`res.blocks is x.blocks`, `res.phases is x.phases`, also crosswise) — object identity;
+  * (real code only) the in-place form of every operation, incl. `__iadd__/__isub__/__imul__` with a block
+    array and `x += x`, yields the value the out-of-place form returns for copies of the same operands.
 
 Only sharing with operands the call was NOT asked to modify is compared (whether an in-place method
 rebinds or mutates its own dict is an implementation detail).  A disagreement is confirmed by a
@@ -75,7 +77,7 @@ def describe(operands):
 
 
 def build_calls(rng, sym, fermi):
-    """[(model op, label, operands, fn(inplace) -> result or tuple)]; operands are fresh per entry"""
+    """[(model op, label, operands, fn(inplace, *operands) -> result or tuple)]; fresh operands per entry"""
     import symmray as sr
     from symmray import abelian_core as ac
 
@@ -90,86 +92,55 @@ def build_calls(rng, sym, fermi):
     def add(op, label, operands, fn):
         calls.append((op, label, list(operands), fn))
 
-    x = arr()
-    add("copy", "copy", [x], lambda ip, x=x: x.copy())
-    x = arr()
-    add("copy_with", "copy_with()", [x], lambda ip, x=x: x.copy_with())
-    x = arr()
-    add("copy_with_indices", "copy_with(indices)", [x], lambda ip, x=x: x.copy_with(indices=x.indices))
-    x = arr()
-    add("modify", "modify(indices)", [x], lambda ip, x=x: x.modify(indices=x.indices))
-    x = arr()
-    add("apply_to_arrays", "apply_to_arrays", [x], lambda ip, x=x: (x.apply_to_arrays(lambda b: b * 2), x)[1])
-    x = arr()
-    add("map_blocks", "_map_blocks", [x],
-        lambda ip, x=x: (x._map_blocks(fn_block=lambda b: b + 0, fn_sector=lambda s: s), x)[1])
-    x = arr()
-    add("set_params", "set_params", [x], lambda ip, x=x: (x.set_params(x.get_params()), x)[1])
-    x = arr()
-    add("fill_missing_blocks", "fill_missing_blocks", [x], lambda ip, x=x: (x.fill_missing_blocks(), x)[1])
-    x = arr()
-    add("drop_missing_blocks", "drop_missing_blocks", [x], lambda ip, x=x: (x.drop_missing_blocks(), x)[1])
-    for label, f_out, f_in in [("*2", lambda x: x * 2, lambda x: x.__imul__(2)),
-                               ("/2", lambda x: x / 2, lambda x: x.__itruediv__(2)),
-                               ("neg", lambda x: -x, None), ("2*", lambda x: 2 * x, None)]:
-        x = arr()
-        if f_in is None:
-            add("scalar", label, [x], lambda ip, x=x, f=f_out: f(x) if not ip else None)
-        else:
-            add("scalar", label, [x], lambda ip, x=x, f=f_out, g=f_in: g(x) if ip else f(x))
-    x = arr()
-    add("unary", "_do_unary_op(abs)", [x], lambda ip, x=x: x._do_unary_op("abs", inplace=ip))
-    x = arr()
-    add("conj", "conj", [x], lambda ip, x=x: x.conj(inplace=ip))
+    add("copy", "copy", [arr()], lambda ip, x: x.copy())
+    add("copy_with", "copy_with()", [arr()], lambda ip, x: x.copy_with())
+    add("copy_with_indices", "copy_with(indices)", [arr()], lambda ip, x: x.copy_with(indices=x.indices))
+    add("modify", "modify(indices)", [arr()], lambda ip, x: x.modify(indices=x.indices))
+    add("apply_to_arrays", "apply_to_arrays", [arr()], lambda ip, x: (x.apply_to_arrays(lambda b: b * 2), x)[1])
+    add("map_blocks", "_map_blocks", [arr()],
+        lambda ip, x: (x._map_blocks(fn_block=lambda b: b + 0, fn_sector=lambda s: s), x)[1])
+    add("set_params", "set_params", [arr()], lambda ip, x: (x.set_params(x.get_params()), x)[1])
+    add("fill_missing_blocks", "fill_missing_blocks", [arr()], lambda ip, x: (x.fill_missing_blocks(), x)[1])
+    add("drop_missing_blocks", "drop_missing_blocks", [arr()], lambda ip, x: (x.drop_missing_blocks(), x)[1])
+    add("scalar", "*2", [arr()], lambda ip, x: x.__imul__(2) if ip else x * 2)
+    add("scalar", "/2", [arr()], lambda ip, x: x.__itruediv__(2) if ip else x / 2)
+    add("scalar", "neg", [arr()], lambda ip, x: -x)
+    add("scalar", "2*", [arr()], lambda ip, x: 2 * x)
+    add("unary", "_do_unary_op(abs)", [arr()], lambda ip, x: x._do_unary_op("abs", inplace=ip))
+    add("conj", "conj", [arr()], lambda ip, x: x.conj(inplace=ip))
     if fermi:
-        x = arr()
-        add("conj", "conj(phase_dual)", [x], lambda ip, x=x: x.conj(phase_dual=True, inplace=ip))
+        add("conj", "conj(phase_dual)", [arr()], lambda ip, x: x.conj(phase_dual=True, inplace=ip))
     x = arr()
     perm = list(range(x.ndim))
     rng.shuffle(perm)
-    add("transpose", "transpose", [x], lambda ip, x=x, p=tuple(perm): x.transpose(p, inplace=ip))
+    add("transpose", "transpose", [x], lambda ip, x, p=tuple(perm): x.transpose(p, inplace=ip))
+    add("dagger", "dagger", [arr()], lambda ip, x: x.dagger(inplace=ip))
+    add("squeeze", "squeeze", [arr().expand_dims(0)], lambda ip, x: x.squeeze(0, inplace=ip))
     x = arr()
-    add("dagger", "dagger", [x], lambda ip, x=x: x.dagger(inplace=ip))
-    x = arr().expand_dims(0)
-    add("squeeze", "squeeze", [x], lambda ip, x=x: x.squeeze(0, inplace=ip))
-    x = arr()
-    add("expand_dims", "expand_dims", [x], lambda ip, x=x, a=rng.randint(0, x.ndim): x.expand_dims(a, inplace=ip))
-    x = arr()
+    add("expand_dims", "expand_dims", [x], lambda ip, x, a=rng.randint(0, x.ndim): x.expand_dims(a, inplace=ip))
     if not fermi:
-        add("fuse_core", "_fuse_core", [x], lambda ip, x=x: x._fuse_core((0, 1), inplace=ip))
-    x = arr(3)
-    add("fuse", "fuse", [x], lambda ip, x=x: x.fuse((0, 2), inplace=ip))
-    x = arr(3)
-    add("fuse", "fuse(two groups)", [x], lambda ip, x=x: x.fuse((1,), (2, 0), inplace=ip))
-    x = arr()
-    add("fuse_empty", "fuse()", [x], lambda ip, x=x: x.fuse(inplace=ip))
-    x = arr(3).fuse((0, 1))
-    add("unfuse", "unfuse", [x], lambda ip, x=x: x.unfuse(0, inplace=ip))
-    x = arr(3).fuse((0, 1)).fuse((0, 1))
-    add("unfuse_all", "unfuse_all", [x], lambda ip, x=x: x.unfuse_all(inplace=ip))
+        add("fuse_core", "_fuse_core", [arr()], lambda ip, x: x._fuse_core((0, 1), inplace=ip))
+    add("fuse", "fuse", [arr(3)], lambda ip, x: x.fuse((0, 2), inplace=ip))
+    add("fuse", "fuse(two groups)", [arr(3)], lambda ip, x: x.fuse((1,), (2, 0), inplace=ip))
+    add("fuse_empty", "fuse()", [arr()], lambda ip, x: x.fuse(inplace=ip))
+    add("unfuse", "unfuse", [arr(3).fuse((0, 1))], lambda ip, x: x.unfuse(0, inplace=ip))
+    add("unfuse_all", "unfuse_all", [arr(3).fuse((0, 1)).fuse((0, 1))], lambda ip, x: x.unfuse_all(inplace=ip))
     x0 = arr(3)
-    x = x0.fuse((0, 1))
-    add("reshape", "reshape(unfuse)", [x], lambda ip, x=x, s=x0.shape: x.reshape(s, inplace=ip))
+    add("reshape", "reshape(unfuse)", [x0.fuse((0, 1))], lambda ip, x, s=x0.shape: x.reshape(s, inplace=ip))
     x = arr(3)
     ax = rng.randrange(x.ndim)
-    v = gen.rand_vec(rng, x.indices[ax])
-    add("multiply_diagonal", "multiply_diagonal", [x, v],
-        lambda ip, x=x, v=v, ax=ax: x.multiply_diagonal(v, ax, inplace=ip))
-    x = arr()
-    add("sync_charges", "sync_charges", [x], lambda ip, x=x: x.sync_charges(inplace=ip))
+    add("multiply_diagonal", "multiply_diagonal", [x, gen.rand_vec(rng, x.indices[ax])],
+        lambda ip, x, v, ax=ax: x.multiply_diagonal(v, ax, inplace=ip))
+    add("sync_charges", "sync_charges", [arr()], lambda ip, x: x.sync_charges(inplace=ip))
     if fermi:
-        x = arr()
-        add("phase_flip", "phase_flip", [x], lambda ip, x=x: x.phase_flip(*range(x.ndim), inplace=ip))
-        x = arr()
-        add("phase_transpose", "phase_transpose", [x], lambda ip, x=x: x.phase_transpose(inplace=ip))
+        add("phase_flip", "phase_flip", [arr()], lambda ip, x: x.phase_flip(*range(x.ndim), inplace=ip))
+        add("phase_transpose", "phase_transpose", [arr()], lambda ip, x: x.phase_transpose(inplace=ip))
         x = arr()
         sec = next(iter(x.blocks), None)
         if sec is not None:
-            add("phase_sector", "phase_sector", [x], lambda ip, x=x, s=sec: x.phase_sector(s, inplace=ip))
-        x = arr()
-        add("phase_global", "phase_global", [x], lambda ip, x=x: x.phase_global(inplace=ip))
-        x = arr()
-        add("phase_sync", "phase_sync", [x], lambda ip, x=x: x.phase_sync(inplace=ip))
+            add("phase_sector", "phase_sector", [x], lambda ip, x, s=sec: x.phase_sector(s, inplace=ip))
+        add("phase_global", "phase_global", [arr()], lambda ip, x: x.phase_global(inplace=ip))
+        add("phase_sync", "phase_sync", [arr()], lambda ip, x: x.phase_sync(inplace=ip))
     # binary blockwise operations, also with the operand passed twice
     for op, label, f_out, f_in in [
         ("add", "+", lambda a, b: a + b, lambda a, b: a.__iadd__(b)),
@@ -183,46 +154,55 @@ def build_calls(rng, sym, fermi):
             gen.add_pending(rng, y)
         if op != "sub" and y.blocks and rng.random() < 0.5:
             y.blocks.pop(next(iter(y.blocks)))
-        add(op, label, [x, y], lambda ip, x=x, y=y, f=f_out, g=f_in: g(x, y) if ip else f(x, y))
+        add(op, label, [x, y], lambda ip, x, y, f=f_out, g=f_in: g(x, y) if ip else f(x, y))
         x = arr()
-        add(op, label + " (same object twice)", [x, x],
-            lambda ip, x=x, f=f_out, g=f_in: g(x, x) if ip else f(x, x))
+        add(op, label + " (same object twice)", [x, x], lambda ip, x, y, f=f_out, g=f_in: g(x, y) if ip else f(x, y))
     a, b, xa, xb = gen.rand_contractible(rng, sym, fermi=fermi, static=static, pending=fermi)
     add("align_axes", "align_axes", [a, b],
-        lambda ip, a=a, b=b, xa=xa, xb=xb: (ac.drop_misaligned_sectors(a, b, tuple(xa), tuple(xb), inplace=True)
-                                            if ip else a.align_axes(b, (tuple(xa), tuple(xb)))))
+        lambda ip, a, b, xa=tuple(xa), xb=tuple(xb): (ac.drop_misaligned_sectors(a, b, xa, xb, inplace=True)
+                                                      if ip else a.align_axes(b, (xa, xb))))
     if not fermi:
         for mode in ("blockwise", "fused"):
             a, b, xa, xb = gen.rand_contractible(rng, sym, fermi=False, static=static)
             add("tensordot_" + mode, "tensordot " + mode, [a, b],
-                lambda ip, a=a, b=b, xa=xa, xb=xb, m=mode: sr.tensordot(a, b, axes=(xa, xb), mode=m,
-                                                                        preserve_array=True))
+                lambda ip, a, b, xa=xa, xb=xb, m=mode: sr.tensordot(a, b, axes=(xa, xb), mode=m, preserve_array=True))
     a, b, xa, xb = gen.rand_contractible(rng, sym, fermi=fermi, static=static, pending=fermi)
     add("tensordot", "tensordot", [a, b],
-        lambda ip, a=a, b=b, xa=xa, xb=xb: sr.tensordot(a, b, axes=(xa, xb), preserve_array=True))
+        lambda ip, a, b, xa=xa, xb=xb: sr.tensordot(a, b, axes=(xa, xb), preserve_array=True))
     a = arr(2)
     add("tensordot", "tensordot (same object twice)", [a, a],
-        lambda ip, a=a: sr.tensordot(a, a, axes=0, preserve_array=True))
-    m = arr(2)
-    add("qr", "qr", [m], lambda ip, m=m: sr.linalg.qr(m))
-    m = arr(2)
-    add("svd", "svd", [m], lambda ip, m=m: sr.linalg.svd(m))
-    m = arr(2)
-    add("svd_truncated", "svd_truncated", [m],
-        lambda ip, m=m, k=rng.randint(1, 3): sr.linalg.svd_truncated(m, max_bond=k, absorb=None))
+        lambda ip, a, b: sr.tensordot(a, b, axes=0, preserve_array=True))
+    add("qr", "qr", [arr(2)], lambda ip, m: sr.linalg.qr(m))
+    add("svd", "svd", [arr(2)], lambda ip, m: sr.linalg.svd(m))
+    add("svd_truncated", "svd_truncated", [arr(2)],
+        lambda ip, m, k=rng.randint(1, 3): sr.linalg.svd_truncated(m, max_bond=k, absorb=None))
     m = arr(2)
     try:
         hm = sr.tensordot(m, m.dagger(), axes=1, preserve_array=True)
         if fermi:
             gen.add_pending(rng, hm)
-        add("eigh", "eigh", [hm], lambda ip, hm=hm: sr.linalg.eigh(hm))
+        add("eigh", "eigh", [hm], lambda ip, hm: sr.linalg.eigh(hm))
         bvec = gen.rand_array(rng, sym, indices=(hm.indices[0],), fermi=fermi, static=static, pending=fermi)
-        add("solve", "solve", [hm.copy(), bvec], None)
-        hm2 = calls[-1][2][0]
-        calls[-1] = ("solve", "solve", [hm2, bvec], lambda ip, a=hm2, b=bvec: sr.linalg.solve(a, b))
+        add("solve", "solve", [hm.copy(), bvec], lambda ip, a, b: sr.linalg.solve(a, b))
     except Exception:  # noqa  (construction of a hermitian operand may fail for odd charges)
         pass
     return calls
+
+
+def value(x):
+    import symmray as sr
+
+    if isinstance(x, sr.AbelianArray):
+        return ("arr", ser.canon_array(ser.enc_array(x)))
+    if isinstance(x, sr.BlockVector):
+        return ("vec", ser.canon_vec(ser.enc_vec(x)))
+    return ("other", repr(x))
+
+
+def copies(operands):
+    """copies of the operands that keep their aliasing pattern"""
+    seen = {}
+    return [seen.setdefault(id(o), o.copy()) for o in operands]
 
 
 def leak_oracle(res, operands, before):
@@ -255,14 +235,22 @@ def run_real(rng, rounds):
                     if flag and (op in NO_FLAG or op in ALWAYS_INPLACE):
                         continue
                     if flag and op == "scalar" and label in ("neg", "2*"):
-                        continue
+                        continue  # no in-place form
                     flagm = True if op in ALWAYS_INPLACE else flag  # methods without a switch are in place
                     rec = dict(op=op, label=label, operands=operands, sym=sym, fermi=fermi, inplace=flagm,
                                case=dict(kind="heapOp", op=op, inplace=flagm, operands=describe(operands)),
                                held=[_dicts(o) for o in operands],  # keeps identities unique
                                before=[snap(o) for o in operands])
+                    rec["out_value"] = None
+                    if flagm and op not in ALWAYS_INPLACE:
+                        # the value the out-of-place call returns for the same operands
+                        try:
+                            ro = fn(False, *copies(operands))
+                            rec["out_value"] = [value(r) for r in (ro if isinstance(ro, tuple) else (ro,))]
+                        except Exception as e:  # noqa
+                            rec["out_value"] = "raised " + type(e).__name__
                     try:
-                        rec["res"] = fn(flagm)
+                        rec["res"] = fn(flagm, *operands)
                         rec["raised"] = None
                     except Exception as e:  # noqa
                         rec["res"] = None
@@ -310,6 +298,19 @@ def check_sharing(ctx, rounds=None):
         if changed:
             ctx.violation(f"{what} modified operand(s) {changed} it was not asked to modify", case, op=op)
             continue
+        # (1b) the in-place form produces the value of the out-of-place form
+        ov = rec["out_value"]
+        if ov is not None:
+            if isinstance(ov, str) != bool(rec["raised"]):
+                ctx.violation(f"{what}: in-place call {'raised ' + rec['raised'] if rec['raised'] else 'succeeded'} "
+                              f"but the out-of-place call {ov if isinstance(ov, str) else 'succeeded'}", case, op=op)
+                continue
+            if not rec["raised"]:
+                res = rec["res"]
+                iv = [value(r) for r in (res if isinstance(res, tuple) else (res,))]
+                if iv != ov:
+                    ctx.violation(f"{what}: the in-place result differs from the out-of-place result", case, op=op)
+                    continue
         if rec["raised"]:
             continue
         res = rec["res"]
